@@ -47,7 +47,13 @@ def run(pid, tier, replay_path, positions, cases, rule, model, assumptions, extr
     else:
         items, ntrees = build_items(tier, seed, positions, cases)
         if extra_items:
-            items += extra_items(tier, seed)
+            # texts the parser rejects are interleaved with the valid ones: what one parse leaves behind
+            # (lexer state, line counters) must not influence the next
+            extra = extra_items(tier, seed)
+            rnd = random.Random(seed + 99)
+            merged = items + extra
+            rnd.shuffle(merged)
+            items = merged
     runs, traces, verdicts, st = oalcheck.parse_and_validate(items)
     accepted = 0
     kinds = {}
